@@ -182,6 +182,40 @@ def run(p: Program, rep: Report, tier: str) -> None:
                     rep.ok("R16.3", f"Expires formatted from {recv} with {fmt!r}")
     if not gmt_fields:
         rep.undecide("R16.3", "no strftime with a GMT literal in Cookie.__str__ (Expires formatting changed)")
+    # the link between the two: Cookie.__init__ keeps every argument as it was given (the UTC-aware datetime built by
+    # set_cookie is the one __str__ formats; the value/max-age that are serialised are the requested ones)
+    ci_init = cookie.methods.get("__init__")
+    if ci_init is None:
+        raise AnalysisError("Cookie.__init__ vanished")
+    rep.analysed(ci_init.fq)
+    ipaths, icol, _ = run_paths(p, ci_init, cookie)
+    rep.cfg_paths += len(ipaths)
+    n_keep = 0
+    for prm in ci_init.params[1:]:
+        bad = None
+        stored = False
+        for pa in ipaths:
+            if pa.exit != "return":
+                continue
+            st = [e for e in pa.events if e.kind == "store" and e.a == ("attr", ("param", "self"), prm)]
+            if not st:
+                continue
+            stored = True
+            if any(e.b != ("param", prm) for e in st):
+                bad = next(e for e in st if e.b != ("param", prm))
+        rule = "R16.3" if prm == "expires" else "R16.4"
+        if bad is not None:
+            node, _fn = icol.nodes[bad.tag]
+            extra = " (a UTC-aware Expires datetime converted here - e.g. to naive local time - is then labelled 'GMT' by __str__: wrong by the UTC offset whenever the process time zone is not UTC)" if prm == "expires" else ""
+            rep.violation(rule, construct(ci_init, text=f"self.{prm} = {show(bad.b)[:60]}"), where(ci_init, node), f"Cookie.__init__ does not keep the `{prm}` argument as given{extra}")
+        elif stored:
+            n_keep += 1
+            rep.ok(rule, f"Cookie.__init__ keeps `{prm}` as given")
+    if n_keep == 0:
+        rep.undecide("R16.4", "Cookie.__init__ stores none of its parameters under their own name")
+    for recv, fmt, c in gmt_fields:
+        if recv != "self.expires":
+            rep.violation("R16.3", construct(s, text=f"{recv}.strftime(... GMT)"), where(s, c), "the datetime labelled GMT in __str__ is not the cookie's own expires attribute")
     br = p.cls("baize.responses:BaseResponse")
     sc = br.methods.get("set_cookie")
     dc = br.methods.get("delete_cookie")
@@ -267,8 +301,8 @@ def run(p: Program, rep: Report, tier: str) -> None:
                 okd = True
     if not okd:
         rep.undecide("R16.4", "delete_cookie does not call set_cookie")
-    rep.require_instances("R16.3", 3)
-    rep.require_instances("R16.4", 5)
+    rep.require_instances("R16.3", 4)
+    rep.require_instances("R16.4", 12)
 
 
 def _k(v) -> str:
